@@ -404,6 +404,31 @@ func cmdHistory() (out string) {
 			problems = append(problems, "invocation.New accepts the command "+c.text)
 		}
 	}
+	// a VALID command is kept byte for byte by the constructors and by sealing (empty segments included)
+	for _, text := range []string{"/a//b", "//a", "/crud//create", "/a/b", "/"} {
+		cmd, err := command.Parse(text)
+		if err != nil {
+			problems = append(problems, "Parse refuses "+text)
+			continue
+		}
+		if d, err := delegation.Root(k.did, k.did, cmd, nil); err != nil {
+			problems = append(problems, "delegation.Root refuses the valid command "+text)
+		} else {
+			if d.Command().String() != text {
+				problems = append(problems, "delegation.Root stores "+d.Command().String()+" for the command "+text)
+			}
+			if sealed, _, err := d.ToSealed(k.priv); err == nil {
+				if back, _, err := delegation.FromSealed(sealed); err != nil || back.Command().String() != text {
+					problems = append(problems, "a delegation for "+text+" does not come back with that command")
+				}
+			}
+		}
+		if iv, err := invocation.New(k.did, k.did, cmd, nil); err != nil {
+			problems = append(problems, "invocation.New refuses the valid command "+text)
+		} else if iv.Command().String() != text {
+			problems = append(problems, "invocation.New stores "+iv.Command().String()+" for the command "+text)
+		}
+	}
 	if len(problems) > 0 {
 		return strings.Join(problems, "; ")
 	}
